@@ -36,7 +36,18 @@ def embed(rng, pts2, planar_only=False):
     V = np.c_[pts2, np.zeros(len(pts2))]
     if planar_only:
         return V, np.array([0.0, 0.0, 1.0]), "xy"
-    M, n = gen.random_rotation(rng, integer=True)
+    if rng.random() < 0.25:
+        # a plane that misses the xy-plane (or its mirror image) by a fraction of a degree: exact integer rotation from the quaternion
+        # (+-2^m, a, b, c), m = 7..11, a, b, c in {-1, 0, 1}: tilt 2 atan(|(a,b)| / 2^m) = 0.03 .. 1.3 degrees
+        while True:
+            abc = [int(x) for x in rng.integers(-1, 2, size=3)]
+            if abc[0] or abc[1]:
+                break
+        M, n = gen.rot_from_quat([2 ** int(rng.integers(7, 12))] + abc, integer=True)
+        if rng.random() < 0.5:
+            M = M @ np.diag([1.0, -1.0, -1.0])       # ... or its mirror image (normal near -z)
+    else:
+        M, n = gen.random_rotation(rng, integer=True)
     k = 2.0 ** -int(np.ceil(np.log2(n))) if n > 1 else 1.0
     s = 2.0 ** int(rng.integers(-2, 3))
     diam = float(np.max(np.linalg.norm(V - V.mean(0), axis=1))) * 2
